@@ -223,7 +223,14 @@ pub(crate) fn wrap_single_line_slow_path<'a>(
     let subsequent_width = options
         .width
         .saturating_sub(display_width(options.subsequent_indent));
-    let line_widths = [initial_width, subsequent_width];
+    // The first line of this paragraph carries the initial indent
+    // only if it is the very first line of the output.
+    let first_line_width = if lines.is_empty() {
+        initial_width
+    } else {
+        subsequent_width
+    };
+    let line_widths = [first_line_width, subsequent_width];
 
     let words = options.word_separator.find_words(line);
     let split_words = split_words(words, &options.word_splitter);
